@@ -482,7 +482,7 @@ def _resize_discr(discr, newshp, offset, discr_kwargs):
     parameters.
     """
     nodes_on_bdry = discr_kwargs.get('nodes_on_bdry', False)
-    if np.shape(nodes_on_bdry) == ():
+    if not np.iterable(nodes_on_bdry):
         nodes_on_bdry = ([(bool(nodes_on_bdry), bool(nodes_on_bdry))] *
                          discr.ndim)
     elif discr.ndim == 1 and len(nodes_on_bdry) == 2:
